@@ -1,4 +1,4 @@
-CONSTANTS MaxView = 1 ByzBudget = 2 Blocks <- cBlocks Hdr <- cHdr Dev = {}
+CONSTANTS MaxView = 1 ByzBudget = 2 Blocks <- cBlocks Hdr <- cHdr Dev = {} Ablate = {}
 INIT Init
 NEXT Next
 INVARIANTS Agreement ExternalValidity NoRejectedCommitted NoEquivocation
